@@ -43,6 +43,9 @@ CLAIMED = {
  "C06": ("corr-pure", "Lean 4 theorems on the sum of delays along a path (the quantity the cycle check tests for zero) + correspondence of ensure_no_dataflow_cycles / cache_triggering_ancestors with the model for several worklist orders + graph-level specification monitor on the implementation",
          "Theorems for paths of any length and groups of any depth: a time-shifted connection or a weak connection whose cycle stays inside its group makes the sum non-zero, leaving the group erases the weak step, plain cycles sum to zero, the reported cycle has an all-zero stored delay, acceptance iff no zero self-delay. PARTIAL: that the worklist reaches the minimal delay for every pop order, terminates, and stores real paths is not a theorem; it is decided by the correspondence (3 pop orders on the model side, Python's set order on the code side) and by an independent simple-cycle specification evaluated on the implementation for every generated multigraph.",
          "Known finding D7 (paths leaving and re-entering a group: AssertionError). Trusted: Lean kernel, correspondence harness. Partial as stated."),
+ "C07": ("corr-sched", "Lean 4 theorems about get_max_advance on the scheduler model + reply-by-reply correspondence (max_advance is a compared argument of every step call) + taint monitor on implementation traces",
+         "Theorems: max_advance <= until, >= current time, = until without triggering ancestors; promise_state: when the step request goes out, every triggering ancestor's earliest unfinished step (in flight or scheduled), delayed by the minimal trigger-path delay, and every step already scheduled for the simulator lie after max_advance (or the window is empty). PARTIAL: the run form (no externally caused step in (t, m] later on) is not a theorem; it is decided by the taint monitor on the implementation traces under random interleavings and by the correspondence.",
+         'Same hypotheses as C01 (WFCfg checked by the driver; D7 excluded; non-real-time). Partial: run form of the promise not proved.'),
 }
 
 NOT_YET = {
